@@ -51,12 +51,30 @@ def param_circuit(lw, rng, n):
 
 def same_u_other_heralds(lw, rng, n):
     """Two circuits with identical components (hence identical U_full) but different heralds,
-    same number of non-heralded modes."""
+    same number of non-heralded modes (n - 1)."""
+    two = rng.random() < 0.35
+    if two:
+        n = n + 1           # two heralds: one more mode so that n - 1 non-heralded modes remain
     steps = []
     for _ in range(int(rng.integers(2, 6))):
         a = int(rng.integers(n - 1))
         steps.append((a, float(rng.uniform(0.2, 0.8))))
     m1, m2 = rng.choice(n, size=2, replace=False).tolist()
+    if two and n >= 3:
+        # two heralds on the same two modes; photon numbers exchanged; declared ascending in one circuit and
+        # descending in the other
+        lo, hi = sorted((int(m1), int(m2)))
+        pair = []
+        for order, nums in (((lo, hi), (0, 1)), ((hi, lo), (0, 1))):
+            c = lw.Circuit(n)
+            for a, r in steps:
+                c.bs(a, a + 1, r)
+            for m, ph in zip(order, nums):
+                c.herald(ph, m)
+            pair.append(c)
+        if rng.random() < 0.5:
+            pair.reverse()
+        return pair
     if rng.random() < 0.5 and n >= 3:
         # identical components and identical *input* herald; only the output herald mode differs
         outs = rng.choice(n, size=2, replace=False).tolist()
